@@ -120,7 +120,7 @@ class Rig:
         self.pty = plumbing.Pty(transparent=False)
         self.cooked = termios.tcgetattr(self.pty.slave)
         self.flags0 = fcntl.fcntl(self.pty.slave, fcntl.F_GETFL)
-        self.fp = inject.Failpoints(exclude=exclude)
+        self.fp = inject.Failpoints(exclude=exclude, c_returns=True)
         self.fp.install()
         self.app = AppState()
         self.app.rfd, self.app.wfd = os.pipe()
@@ -258,8 +258,16 @@ def _scenario(R, sc, in_thread):
                 obs["where"] = ("before op", k, op)
                 raise inject.Inject("before op %d" % k)
             if op in ("send0", "send_s"):
-                inp.send(0 if op == "send0" else 0.002)
-                check_nonblocking()     # between requests: after a request that returned
+                if sc.get("survive"):
+                    # the usual "survive Ctrl-C" loop: the interrupt is caught around the request
+                    # and the application goes on using the Input
+                    try:
+                        inp.send(0 if op == "send0" else 0.002)
+                    except inject.Inject:
+                        obs["survived"] = True
+                else:
+                    inp.send(0 if op == "send0" else 0.002)
+                check_nonblocking()     # between requests: after a request that returned or was interrupted
             elif op == "ev":
                 objs["ev"]()
             elif op == "tsafe":
@@ -295,7 +303,8 @@ def _scenario(R, sc, in_thread):
             raise inject.Inject("after the last op")
 
     def guarded():
-        fp.arm(crash[1] if crash and crash[0] == "line" else None)
+        fp.arm(crash[1] if crash and crash[0] == "line" else None,
+               crash[1:] if crash and crash[0] == "at" else None)
         try:
             body()
         finally:
@@ -392,6 +401,9 @@ def classify(sc, obs):
         return "C12:wakeup-fd-not-restored"
     if d == {"cursor-hidden"} and not sc.get("cfg", {}).get("hide_cursor", True) and obs.get("fired"):
         return "C12:cursor-left-hidden"
+    if d == {"nonblocking-between-requests"} and sc.get("survive") and obs.get("where") and \
+            str(obs["where"][1]).startswith("Nonblocking.__enter__"):
+        return "C12:interrupted-while-entering-nonblocking"
     if d and d <= {"flags", "nonblocking-between-requests"} and obs.get("fired") and obs.get("where") and \
             len(obs["where"]) == 3 and str(obs["where"][1]).startswith("Nonblocking.__exit__"):
         return "C12:interrupted-inside-nonblocking-restore"
@@ -418,6 +430,8 @@ def judge(ctx, sc, obs):
 def run_case(ctx, case):
     if case.get("kind") == "sigint":
         return run_sigint(ctx, case)
+    if case.get("kind") == "storm":
+        return run_storm(ctx, case)
     if case.get("kind") == "cycles":
         return run_cycles(ctx, case)
     if case.get("kind") == "reuse":
@@ -510,6 +524,8 @@ def line_scenarios(rng, quick):
         {"kind": "input", "cfg": {"sigint_event": True}, "body": INPUT_BODY[:8] if q else INPUT_BODY, "tty": "cooked"},
         {"kind": "input", "cfg": {"sigint_event": False, "dtss": True}, "body": INPUT_BODY[4:10] if q else INPUT_BODY[:7],
          "tty": "raw", "flags": os.O_NONBLOCK, "app": True},
+        {"kind": "input", "cfg": {"sigint_event": False}, "body": ["send0", "feed", "send0", "send_s", "send0"],
+         "tty": "cbreak", "survive": True},
         {"kind": "full", "cfg": {"hide_cursor": True}, "body": FULL_BODY[1:4] if q else FULL_BODY, "tty": "noecho"},
         {"kind": "caw", "cfg": {"hide_cursor": True, "keep_last_line": True}, "body": CAW_BODY[:4] if q else CAW_BODY,
          "tty": "cbreak"},
@@ -749,6 +765,93 @@ def run_sigint(ctx, case):
     termios.tcsetattr(fd, termios.TCSANOW, R.cooked)
 
 
+def run_storm(ctx, case):
+    """real SIGINTs (default handler, sigint_event off) fired from another thread within
+    microseconds of a key arriving, the application surviving them with try/except around
+    each request: between requests the stream is never left non-blocking"""
+    import random
+    from curtsies import Input
+    R = rig()
+    fd = R.pty.slave
+    set_tty_mode(fd, R.cooked, "cooked")
+    R.pty.drain_slave()
+    signal.signal(signal.SIGINT, R.default_sigint)
+    signal.set_wakeup_fd(-1)
+    rng = random.Random(case["seed"])
+    inp = Input(R.pty.stream, sigint_event=False)
+    base_flags = fcntl.fcntl(fd, fcntl.F_GETFL)
+    go = threading.Event()
+    done = threading.Event()
+    stop = []
+    delays = [rng.random() * case["max_delay_us"] * 1e-6 for _ in range(case["trials"])]
+
+    def helper():
+        pid = os.getpid()
+        for d in delays:
+            go.wait()
+            go.clear()
+            if stop:
+                return
+            t = time.perf_counter() + d
+            while time.perf_counter() < t:
+                pass
+            os.kill(pid, signal.SIGINT)
+            done.set()
+    th = threading.Thread(target=helper, name="storm")
+    hits = {"interrupted_requests": 0, "late": 0, "left_nonblocking": 0, "trials": 0}
+    witness = None
+    try:
+        with inp:
+            th.start()
+            for k in range(case["trials"]):
+                try:
+                    os.write(R.pty.master, b"k")
+                    done.clear()
+                    go.set()
+                    try:
+                        inp.send(0.02)
+                    except KeyboardInterrupt:
+                        hits["interrupted_requests"] += 1
+                    # between requests
+                    fl = fcntl.fcntl(fd, fcntl.F_GETFL)
+                    if fl & os.O_NONBLOCK and not base_flags & os.O_NONBLOCK:
+                        hits["left_nonblocking"] += 1
+                        witness = witness or k
+                        fcntl.fcntl(fd, fcntl.F_SETFL, base_flags)
+                    while not done.wait(0.0005):
+                        pass
+                    time.sleep(0)          # let a pending handler run here
+                except KeyboardInterrupt:
+                    hits["late"] += 1
+                    while not done.is_set():
+                        try:
+                            done.wait(0.001)
+                        except KeyboardInterrupt:
+                            pass
+                hits["trials"] += 1
+                try:
+                    while inp.send(0) is not None:
+                        pass
+                except KeyboardInterrupt:
+                    hits["late"] += 1
+    except KeyboardInterrupt:
+        hits["late"] += 1
+    finally:
+        stop.append(1)
+        go.set()
+        try:
+            th.join(5)
+        except KeyboardInterrupt:
+            pass
+    for k, v in hits.items():
+        ctx.count("storm_" + k, v)
+    ctx.judge(hits["left_nonblocking"] == 0, case, ("C12", "storm", case["seed"]),
+              "C12:interrupted-while-entering-nonblocking", "stream blocking between requests",
+              hits, {"first_trial": witness}, nontrivial=hits["interrupted_requests"] > 0)
+    termios.tcsetattr(fd, termios.TCSANOW, R.cooked)
+    fcntl.fcntl(fd, fcntl.F_SETFL, R.flags0)
+
+
 def run(ctx):
     rng = ctx.rng
     n = 0
@@ -779,6 +882,9 @@ def run(ctx):
         run_sigint(ctx, {"kind": "sigint", "sigint_event": rng.random() < .5, "app": rng.random() < .5,
                          "delay": rng.choice([0.0, 0.001, 0.005, 0.02]) + rng.random() * 0.03,
                          "tty": rng.choice(TTY_MODES)})
+    for _ in range(ctx.share(4 if ctx.quick else 160)):
+        run_storm(ctx, {"kind": "storm", "trials": 500 if ctx.quick else 2000, "max_delay_us": rng.choice([60, 120, 250]),
+                        "seed": rng.randrange(1 << 30)})
     if _RIG[0] is not None:
         _RIG[0].close()
         _RIG[0] = None
